@@ -138,7 +138,7 @@ def run(ctx):
              ([], []),
              (["junk before header", ">a", "AB"], [(">a", "AB")])]
     for lines, want in cases:
-        got = I.call(rf, [list(lines)], {})
+        got = I.lib.iterate(I, I.call(rf, [list(lines)], {}))
         ctx.check(list(got) == want, "R4", f"read_fasta on {lines!r}",
                   f"records {got!r}, expected {want!r} (one record per '>' header, lines concatenated, last record flushed)", s_rf)
     g = I.global_name("fasta", "_guess_type_from_filename")
@@ -150,7 +150,7 @@ def run(ctx):
     # load / loadall: first record / every record, typed by the extension
     I.builtins["open"] = Builtin("open", lambda *a, **k: I.new_obj("fh", None, {"lines": [">p1", "AB", ">p2", "A"]}, open_attrs=set()))
     I.stubs["fasta.read_fasta"] = lambda I_, a, k: [(">p1", "AB"), (">p2", "A")]
-    r = I.call(I.getattr(Seq, "loadall"), ["x.faa"], {})
+    r = I.lib.iterate(I, I.call(I.getattr(Seq, "loadall"), ["x.faa"], {}))
     ctx.check(isinstance(r, list) and len(r) == 2 and I.getattr(r[0], "sequence") == "AB" and I.getattr(r[1], "sequence") == "A",
               "R4", "Sequence.loadall yields one Sequence per record", f"got {_s(r)}", fsite(ctx, "fasta.Sequence.loadall"))
     ctx.floor("R4", 12)
